@@ -10,7 +10,7 @@ use serde_json::json;
 use std::collections::BTreeSet;
 
 const MAX_DEV: usize = 2;
-const N_MESHES: usize = 7;
+const N_MESHES: usize = 8;
 const EXEC_CAP: usize = 50_000;
 
 pub fn subject(which: usize) -> Mesh {
@@ -61,6 +61,11 @@ pub fn subject(which: usize) -> Mesh {
             // the roof with every index triple rotated, so that the vertices near the references come last
             let v = vec![Point3::new(0.0, 0.0, 0.0), Point3::new(0.0, 1.0, 0.0), Point3::new(1.0, 0.0, 0.0), Point3::new(1.0, 1.0, 0.0), Point3::new(-1.0, 0.0, 1.0), Point3::new(-1.0, 1.0, 1.0)];
             Mesh::new(v, vec![[2, 3, 0], [3, 1, 0], [0, 1, 4], [5, 4, 1]], false)
+        }
+        7 => {
+            // the same with the zero-area face listed FIRST: every other face comes after a face without a normal
+            let v = vec![Point3::new(0.0, 0.0, 0.0), Point3::new(0.0, 1.0, 0.0), Point3::new(1.0, 0.0, 0.0), Point3::new(1.0, 1.0, 0.0), Point3::new(-1.0, 0.0, 1.0), Point3::new(-1.0, 1.0, 1.0), Point3::new(2.0, 0.0, 0.0)];
+            Mesh::new(v, vec![[0, 2, 6], [0, 2, 3], [0, 3, 1], [4, 0, 1], [4, 1, 5]], false)
         }
         3 => {
             // the roof plus a zero-area face (three collinear vertices): it has no normal, so only the
@@ -431,7 +436,7 @@ fn judge_unit(t: &Tables, mi: usize, ci: usize, f: usize, ui: usize, l: &mut Loc
 
 pub fn run(tier: Tier) -> i32 {
     let mut cx = Ctx::new("C14", tier, "model_checking");
-    cx.rule = "explicit-state search over selections (bit sets over the faces of a tetrahedron, a two-normal 'roof', an octahedron, the roof with an extra zero-area face, the roof with rotated index triples, an unwelded two-sided sheet and a sheet exactly parallel to the tilted reference): initial states none, all, every singleton, every pair; actions {Add, Remove, Keep} x {facing: 9 directions (two of them far from unit length) x 3 angles; near_mesh: 5 reference meshes (two large planes, an offset copy, a small square whose border the subject overhangs, a tilted plane) x all/any vertices x 2 distances x planar None/0.2 x angle None/0.3/1.0}; every transition (and the mesh built from every state) is executed under all hash-set iteration orders with at most 2 departures from the default order; the per-face predicate is computed (i) independently from the geometry for the plane references and (ii) by the code itself in the canonical context (singleton selection, Keep); chains of two and three steps on one filter object (12 criteria squared x 9 operation pairs from the empty, full and singleton selections) are compared with the set algebra of those predicates; every near-mesh predicate is recomputed with subject, references, distance and planar tolerance in millimetres and in kilometres and must not change. distinct = distinct (mesh, selection) states".into();
+    cx.rule = "explicit-state search over selections (bit sets over the faces of a tetrahedron, a two-normal 'roof', an octahedron, the roof with an extra zero-area face (listed last, and listed first), the roof with rotated index triples, an unwelded two-sided sheet and a sheet exactly parallel to the tilted reference): initial states none, all, every singleton, every pair; actions {Add, Remove, Keep} x {facing: 9 directions (two of them far from unit length) x 3 angles; near_mesh: 5 reference meshes (two large planes, an offset copy, a small square whose border the subject overhangs, a tilted plane) x all/any vertices x 2 distances x planar None/0.2 x angle None/0.3/1.0}; every transition (and the mesh built from every state) is executed under all hash-set iteration orders with at most 2 departures from the default order; the per-face predicate is computed (i) independently from the geometry for the plane references and (ii) by the code itself in the canonical context (singleton selection, Keep); chains of two and three steps on one filter object (12 criteria squared x 9 operation pairs from the empty, full and singleton selections) are compared with the set algebra of those predicates; every near-mesh predicate is recomputed with subject, references, distance and planar tolerance in millimetres and in kilometres and must not change. distinct = distinct (mesh, selection) states".into();
     let t = tables();
     cx.bounds = json!({"max_deviations": MAX_DEV, "criteria": t.crits.len(), "meshes": 3, "depth": "closure", "execution_cap": EXEC_CAP});
     cx.require(&["non-initial selection", "empty selection", "full selection", "partial selection", "facing criterion", "near-mesh criterion with angle tolerance", "near-mesh criterion without angle tolerance", "independent predicate agrees", "two steps on one filter object", "near-mesh criterion at another length unit"]);
